@@ -56,6 +56,9 @@ def gen_tags_case(rng, tier):
         used = set()
         barcodes = {}  # (sample, chrom) -> list of [barcode, last start of its latest molecule]
         nbar = 0
+        # barcodes come from one whitelist: two samples' libraries use the same strings (read clouds are per sample all the same)
+        shared_whitelist = len(w["samples"]) > 1 and rng.random() < 0.5
+        per_sample = {}
         for i, r in enumerate(reads):
             if i in used or rng.random() < 0.4:
                 continue
@@ -76,7 +79,10 @@ def gen_tags_case(rng, tier):
                     break
             if bc is None:
                 nbar += 1
-                bc = ["BX%04d-1" % nbar, hi]
+                num = nbar
+                if shared_whitelist:
+                    num = per_sample[key] = per_sample.get(key, 0) + 1
+                bc = ["BX%04d-1" % num, hi]
                 barcodes[key].append(bc)
             bc[1] = hi
             for k in mol:
